@@ -165,6 +165,14 @@ impl PrecisionAwareOptimizer {
             return None;
         }
 
+        // A bound against the direction of optimisation has to hold as well; if it does not,
+        // the bounds are inconsistent: fall back to constraint-aware optimization
+        if constraint_lower.map_or(false, |lower| optimal_value < lower)
+            || constraint_upper.map_or(false, |upper| optimal_value > upper)
+        {
+            return None;
+        }
+
         // Check if we used constraint-derived bounds (indicating precision optimization)
         let used_constraints = constraint_upper.is_some() || constraint_lower.is_some();
         if used_constraints {
